@@ -956,6 +956,7 @@ func main() {
 	threads := fs.Int("threads", 4, "stress threads")
 	ops := fs.Int("ops", 4, "ops per thread")
 	conns := fs.Int("conns", 3, "connections/datagrams per round")
+	many := fs.Int("many", 0, "extra rounds with this many addresses, all listened on and then all closed")
 	wd := fs.Duration("watchdog", 2*time.Second, "deadlock watchdog")
 	stepTO := fs.Duration("steptimeout", 500*time.Millisecond, "per-step timeout of the schedule replayer")
 	fs.Parse(os.Args[2:])
@@ -1005,6 +1006,34 @@ func main() {
 				sc.connect(ks[rng.Intn(len(ks))])
 			}
 			sc.finish(len(script), &wg, *wd, leaks0)
+		}
+		// "any number of addresses": many addresses of both kinds are acquired and then released without a listen in
+		// between (what stopping a large configuration does), by one thread and by two threads
+		if *many > 0 {
+			for v, nt := range []int{1, 2} {
+				leaks0, _ := countLeaks()
+				mk := map[int]string{}
+				for i := 1; i <= *many; i++ {
+					mk[10+i] = []string{"s", "p"}[i%2]
+				}
+				sc := newScenario(tr, mk)
+				script := make([][]op, nt)
+				for t := 0; t < nt; t++ {
+					for i := 1 + t; i <= *many; i += nt {
+						script[t] = append(script[t], op{A: "listen", K: 10 + i, H: i})
+					}
+					for i := 1 + t; i <= *many; i += nt {
+						script[t] = append(script[t], op{A: "close", H: i})
+					}
+				}
+				sc.emit(map[string]any{"ev": "Sched", "id": *rounds + v + 1, "dead": false, "script": script})
+				var wg sync.WaitGroup
+				for t := range script {
+					wg.Add(1)
+					go sc.runThread(t+1, script[t], nil, &wg)
+				}
+				sc.finish(len(script), &wg, *wd, leaks0)
+			}
 		}
 	default:
 		hx.Fatal("unknown mode")
